@@ -26,8 +26,10 @@ ASSUMPTIONS = [
     "labels of equal length to the interval array (length mismatch is outside the modelled domain)",
 ]
 UNPROVED = [
-    "b2i_i2b / i2b_b2i for times that are not 5-decimal exact (only 'up to round5' is claimed there; proved for "
-    "5-decimal-exact times)",
+    "b2i_i2b / i2b_b2i: proved for 5-decimal-exact times and, 'up to round5', for arbitrary times whose rounded "
+    "boundaries stay strictly ascending (b2i_i2b_rounded, b2i_i2b_rounded_of_durations: rows longer than 1e-5 s, "
+    "i2b_b2i_rounded); when rounding MERGES two boundaries (a row shorter than 1e-5 s) the round trip drops that row "
+    "- not stated as a theorem",
     "merge_misaligned_raises is proved for the alignment test only (IndexError on empty input is by computation)",
 ]
 EXHAUSTIVE = {"thorough": True}
